@@ -253,6 +253,43 @@ func runC20(c *core.Ctx) {
 	c.Exhaustive = true
 	c.ExhaustNote = fmt.Sprintf("all paths of length <= %d over 4 names (incl. empty, quotes, non-ASCII) and 4 indices (incl. negative and 2^53+1)", maxLen)
 
+	// random paths over names with every kind of character a client can put into a key:
+	// controls, DEL, line separators, HTML-sensitive characters, non-BMP and non-printable runes
+	hard := []string{"\x01", "\x07", "\x7f", "tab\t", "nl\n", "cr\r", "\u2028", "\u2029", "<>&", "\U000E0001", "\U0010FFFF", "\u00ad", "\ufeff", "😀", "a\x00b", "\\u0041"}
+	nHard := 4000
+	if !c.Quick {
+		nHard = 100000
+	}
+	hardPaths := make([]string, nHard)
+	for i := range hardPaths {
+		m := 1 + c.Rng.Intn(4)
+		parts := make([]string, m)
+		for j := range parts {
+			switch c.Rng.Intn(4) {
+			case 0:
+				parts[j] = gen.Pick(c.Rng, elems)
+			case 1:
+				parts[j] = "n" + hx(gen.Pick(c.Rng, hard)+gen.Pick(c.Rng, hard))
+			default:
+				parts[j] = "n" + hx(gen.Pick(c.Rng, hard))
+			}
+		}
+		hardPaths[i] = strings.Join(parts, ",")
+	}
+	c.Pool.ParFor(nHard, func(w, i int) {
+		text := hardPaths[i]
+		impl := c.Impl(w, "path", []byte(text))
+		v, cur, none := c.Tie(w, "path", impl, []byte(text))
+		if v == core.Violation {
+			c.Report(w, "path", thm, [][]byte{[]byte(text)}, impl, cur, none)
+		}
+		if !strings.HasSuffix(impl, "|ok "+text) {
+			c.ReportOracle("path-roundtrip", map[string]interface{}{"op": "path", "args": []string{hexs(text)}, "path": text, "implementation": impl})
+		}
+	})
+	c.Evals += int64(nHard)
+	c.Count("random_paths_over_hard_names", int64(nHard))
+
 	// ---- error-biased streams at every entry point
 	n := 20000
 	if !c.Quick {
